@@ -4,7 +4,7 @@ CONSTANT D = 3
 CONSTANT EmbKind = "top"
 CONSTANT MinSet = 0
 CONSTANT MaxSet = 8
-CONSTANT SoundMax = 4
+CONSTANT SoundMax = 3
 CONSTANT ExhH = 0
 CONSTANT GuidedH = 4
 CONSTANT PermMax = 4
